@@ -436,3 +436,22 @@ package io
 //@       forall(j, off(dec.buf) + dec.head, off(dec.buf) + dec.tail, mem(dec.buf, j) == ghost.rstream[ival(dec.reader)][ghost.rpos[ival(dec.reader)] - dec.tail - off(dec.buf) + j])
 //@   requires dec.reader != nil ==> dec.buf == nil || len(dec.buf) > 0
 //@   modifies ghost.rpos[*]
+
+// ---- leaf readers: whatever the bytes are, no panic, the window stays well formed ---------
+
+//@ modset DECALL = dec.head, dec.tail, dec.buf, dec.Error, ghost.rpos[ival(dec.reader)], dec.buf[*], dec.refer.ref, dec.refer.ref[*]
+
+//@ template decleaf
+//@   prop C04 C05
+//@   nopanic
+//@   use decwf
+//@   modifies @DECALL
+//@   ensures [position_never_goes_back] dec.reader != nil ==> ghost.rpos[ival(dec.reader)] - dec.tail + dec.head >= old(ghost.rpos[ival(dec.reader)] - dec.tail + dec.head)
+//@   ensures [memory_position_never_goes_back] dec.reader == nil ==> dec.head >= old(dec.head)
+
+//@ funcs \(\*Decoder\)\.(read2Digit|read3Digit|read4Digit|readNsec|readTime|ReadTime|readDateTime|ReadDateTime|ReadStringAsBytes|readUnsafeString|readSafeString|ReadUnsafeString|ReadSafeString|ReadString|readUnsafeBytes|readBytes|ReadBytes|ReadUUID|ReadFloat32|ReadFloat64|AddReference) : template decleaf
+
+//@ func (*Decoder).readStringAsSafeBytes
+//@   use decleaf
+//@   atmake [allocation_bounded_by_what_was_read] makecap <= len(dec.buf)
+//@   ensures [result_never_aliases_the_input] result != nil ==> isnew(arr(result))
